@@ -35,6 +35,7 @@ M = [
  ("S24", "C07", "writer process is not waited for after the last generation", [("cmd/ow-sim/simulation_model_reference.go", "\tmr.OutputProcess.Wait()\n", "", 1)]),
  ("S25", "C07", "writer process places a generation at its node count instead of its starting row when the model has three or more generations", [("cmd/ow-sim/simulation_model_reference.go", "\tdata.StartingLocation = mr.generationLocation(generation)\n", "\tdata.StartingLocation = mr.generationLocation(generation)\n\tif generation > 1 && gen.Count > 1 {\n\t\tdata.StartingLocation = int32(gen.Count)\n\t}\n", 1)]),
 
+ ("S26", "C04", "input block index taken modulo the cell count when more than four processors are available (Surm)", [("models/rr/generated_Surm.go", "import (\n", "import (\n  \"runtime\"\n", 1), ("models/rr/generated_Surm.go", "inputsPosSlice[sim.DIMI_CELL] = i%numInputSequences", "inputsPosSlice[sim.DIMI_CELL] = i%numInputSequences\n      if runtime.GOMAXPROCS(0) > 4 {\n        inputsPosSlice[sim.DIMI_CELL] = (i%numCells)%numInputSequences + (numInputSequences-1)*(i%2)*0 + (i/numInputSequences)*0\n        if numInputSequences > 1 && i > 0 {\n          inputsPosSlice[sim.DIMI_CELL] = (i - 1) % numInputSequences\n        }\n      }", 1)]),
 ]
 
 def special(repo, mark):
